@@ -27,8 +27,8 @@ import (
 )
 
 func TestMain(m *testing.M) {
-	vlib.Rule("C24: rapid-generated entries (all attribute fields, 0-120 chunks on both sides of the >50 compression threshold with file ids spelled canonically / with leading zeros / upper case / as Fid structs, source ids, cipher keys, flags; extended attributes; hard-link id+counter; inline content incl. 1f8b-prefixed bytes and real gzip; remote info) inserted and then updated through filer.FilerStoreWrapper on leveldb, leveldb2 and leveldb3 (plain, bucket-subdirectory and bucket-root paths); after each write FindEntry, ListDirectoryEntries and ListDirectoryPrefixedEntries must return the entry. Non-trivial = >50 chunks, or gzip-looking content/extended value, or a chunk with source id or cipher key. Distinct = distinct (store, path kind, entry pair) description.")
-	vlib.Assume("C24: string fields are valid UTF-8 (protobuf refuses others), times are whole seconds, names contain no NUL or '/', chunk file ids are well-formed with file key >= 1 (key 0 prints as 0,00000000 which ParseFileIdFromString rejects; sequencers start at 1); one store instance per kind is shared by all cases of a process, each case using its own directory.")
+	vlib.Rule("C24: rapid-generated entries (all attribute fields, 0-120 chunks on both sides of the >50 compression threshold with file ids spelled canonically / with leading zeros / upper case / as Fid structs, source ids, cipher keys, flags; extended attributes; hard-link id+counter; inline content incl. 1f8b-prefixed bytes and real gzip; remote info) inserted and then updated (hard-linked entries often keep their link id while the counter moves within {1,2,3} and the content changes, with an optional third write) through filer.FilerStoreWrapper on leveldb, leveldb2 and leveldb3 (plain, bucket-subdirectory and bucket-root paths); after each write FindEntry, ListDirectoryEntries and ListDirectoryPrefixedEntries must return the entry. Non-trivial = >50 chunks, or gzip-looking content/extended value, or a chunk with source id or cipher key. Distinct = distinct (store, path kind, entry pair) description.")
+	vlib.Assume("C24: string fields are valid UTF-8 (protobuf refuses others), times are whole seconds, names contain no NUL or '/', entries carrying a hard-link id are files with counter >= 1 (never directories), chunk file ids are well-formed with file key >= 1 (key 0 prints as 0,00000000 which ParseFileIdFromString rejects; sequencers start at 1); one store instance per kind is shared by all cases of a process, each case using its own directory.")
 	vlib.Assume("C24: ListDirectoryPrefixedEntries on these stores returns chunks with the Fid struct only (the wrapper does not call AfterEntryDeserialization on that path); the check accepts that as the same file id and compares after filling in the string form.")
 	vlib.Main(m) // exits the process; the scratch directories of the stores are removed by vlib
 }
@@ -319,11 +319,12 @@ func genEntry(t *rapid.T, fp util.FullPath) (*filer.Entry, *genInfo) {
 	}
 
 	// hard link
-	if rapid.IntRange(0, 3).Draw(t, "hasHardLink") == 0 {
+	if rapid.IntRange(0, 2).Draw(t, "hasHardLink") == 0 {
 		id := rapid.SliceOfN(rapid.Byte(), 16, 16).Draw(t, "hardLinkId")
 		e.HardLinkId = append(append([]byte{}, id...), 0x01)
-		e.HardLinkCounter = rapid.Int32Range(1, 5).Draw(t, "hardLinkCounter")
+		e.HardLinkCounter = rapid.SampledFrom([]int32{1, 2, 3, 2, 1, 5}).Draw(t, "hardLinkCounter")
 		info.hardlink = true
+		e.Mode &^= os.ModeDir // only files are hard-linked (the wrapper skips link handling for directories)
 	}
 
 	// inline content
@@ -618,6 +619,16 @@ func TestPropStoreRoundTrip(t *testing.T) {
 		verify(t, s, kind, "after insert", want1)
 
 		e2, i2 := genEntry(t, fp)
+		// a hard-linked file usually keeps its link id while its counter and content change
+		// (ln a b; rm b; then write / chmod / setxattr a)
+		sameLink := false
+		if i1.hardlink && rapid.IntRange(0, 3).Draw(t, "keepHardLinkId") > 0 {
+			e2.HardLinkId = append(filer.HardLinkId(nil), want1.HardLinkId...)
+			e2.HardLinkCounter = rapid.SampledFrom([]int32{1, 1, 2, 3}).Draw(t, "hardLinkCounter2")
+			i2.hardlink = true
+			sameLink = true
+			e2.Mode &^= os.ModeDir
+		}
 		// the update often re-sends chunk objects the client got from the filer (or still holds from
 		// the insert), with some of them pointed at new file ids and new chunks appended
 		updateMode := rapid.SampledFrom([]string{"fresh-chunks", "reuse-readback-chunks", "reuse-readback-chunks", "reuse-inserted-chunks"}).Draw(t, "updateMode")
@@ -678,6 +689,26 @@ func TestPropStoreRoundTrip(t *testing.T) {
 		}
 		verify(t, s, kind, "after update", want2)
 
+		// a third write of a hard-linked file: same link id, counter and content changed again
+		d3, thirdStep := "", ""
+		if i2.hardlink && rapid.Bool().Draw(t, "thirdWrite") {
+			e3, _ := genEntry(t, fp)
+			e3.HardLinkId = append(filer.HardLinkId(nil), want2.HardLinkId...)
+			e3.HardLinkCounter = rapid.SampledFrom([]int32{1, 1, 2, 3}).Draw(t, "hardLinkCounter3")
+			e3.Mode &^= os.ModeDir
+			want3 := expected(e3)
+			d3 = describe(e3)
+			if err := s.UpdateEntry(ctx, e3); err != nil {
+				t.Fatalf("[%s] second UpdateEntry(%s): %v\nentry: %s", kind, fp, err, d3)
+			}
+			verify(t, s, kind, fmt.Sprintf("after second update (hard link counters %d -> %d -> %d)", want1.HardLinkCounter, want2.HardLinkCounter, want3.HardLinkCounter), want3)
+			thirdStep = fmt.Sprintf(" update{%s}", d3)
+			if want2.HardLinkCounter > want3.HardLinkCounter {
+				sameLink = true
+				want1, want2 = want2, want3 // for the class labels below
+			}
+		}
+
 		// clean up so that shared directories stay small
 		if err := s.DeleteEntry(ctx, fp); err != nil {
 			t.Fatalf("[%s] DeleteEntry(%s): %v", kind, fp, err)
@@ -706,6 +737,12 @@ func TestPropStoreRoundTrip(t *testing.T) {
 		if i1.hardlink || i2.hardlink {
 			cls = append(cls, "hardlink")
 		}
+		if sameLink && bytes.Equal(want1.HardLinkId, want2.HardLinkId) {
+			cls = append(cls, "hardlink-same-id-rewritten")
+			if want1.HardLinkCounter >= 2 && want2.HardLinkCounter <= 1 {
+				cls = append(cls, "hardlink-counter-drops-to-1")
+			}
+		}
 		if i1.hardlink && i2.hardlink && !bytes.Equal(want1.HardLinkId, want2.HardLinkId) {
 			cls = append(cls, "update-changes-hardlink-id")
 		}
@@ -718,7 +755,7 @@ func TestPropStoreRoundTrip(t *testing.T) {
 			}
 		}
 		cls = dedup(cls)
-		vlib.Case(fmt.Sprintf("%s %s name=%q insert{%s} %s{%s}", kind, pathKind, name, d1, map[bool]string{true: "insert", false: "update"}[useInsert], d2), nontrivial, cls...)
+		vlib.Case(fmt.Sprintf("%s %s name=%q insert{%s} %s{%s}", kind, pathKind, name, d1, map[bool]string{true: "insert", false: "update"}[useInsert], d2)+thirdStep, nontrivial, cls...)
 	})
 }
 
